@@ -162,7 +162,7 @@ def check_update(ck, tmp, stream, c, mres=None, via="lib"):
     if mres is not None:
         compare(ck, stream, brief(c), model_images(mres), ires, "GenImageUpdate.create_files_for_update")
     if fail:
-        return {"input": case_json(c), "observed": fail,
+        return {"input": dict(case_json(c), via=via), "observed": fail,
                 "expected": "storage image = le32(0x55AA55AA, 1, partition address, file size) + 8n zero bytes at the update-candidate-info "
                             "address; partition image = the file's bytes at the partition address"}
     return None
@@ -193,7 +193,7 @@ def update_cases(ck):
     for n in (0, 6, 16):
         for a in addrs(16 + 8 * n):
             cases.append({"file": envelope(rng, rng.choice(small)), "uci": a, "part": rng.choice(addrs(1000)), "n": n})
-    for _ in range(1500 if ck.deep else 40):
+    for _ in range(5000 if ck.deep else 300):
         size = rng.choice(small + [rng.randrange(0, 5000)])
         n = rng.randrange(17)
         cases.append({"file": envelope(rng, size), "uci": rng.randrange(0, U32 - 16 - 8 * n + 1), "part": rng.randrange(0, U32 - size + 1), "n": n})
@@ -271,7 +271,7 @@ def cli_stream(ck, tmp):
     fails, rng = [], ck.rng
     m = _mod()
     runs = [(None, None, None, 0)]
-    for _ in range(6 if ck.deep else 3):
+    for _ in range(12 if ck.deep else 6):
         n = rng.randrange(17)
         runs.append((rng.choice(addrs(16 + 8 * n)), rng.choice(addrs(0x10001)), n, rng.choice([1, 0xFFFF, 0x10001])))
     for uci, part, n, size in runs:
@@ -333,6 +333,7 @@ def run(tier, seed):
                           "missing file). Every case runs on the implementation (library, main(), CLI) and on the extracted regenerated model "
                           "(images / bytes / exception compared) and through the read-back oracle; non-trivial = accepted input; distinct by "
                           "(stream, input)")
+        failing.sort(key=lambda f: len(repr(f["input"])))   # report the smallest failing inputs
         return ck.decide(failing, search=lambda: search(ck, tmp))
     finally:
         shutil.rmtree(tmp, ignore_errors=True)
@@ -366,7 +367,7 @@ def replay(path):
         if inp["op"] in ("update", "cli update"):
             c = {"file": None if inp.get("file") is None else bytes.fromhex(inp["file"]), "uci": inp.get("update_candidate_info_address", 0x1000),
                  "part": inp.get("dfu_partition_address", 0x2000), "n": inp.get("dfu_max_caches", 0)}
-            f = check_update(ck, tmp, "replay", c)
+            f = check_update(ck, tmp, "replay", c, via=inp.get("via", "main" if inp["op"].startswith("cli") else "lib"))
         elif inp["op"] == "record":
             a, s, n = inp["dfu_partition_address"], inp["candidate_size"], inp["dfu_max_caches"]
             ires = core.Check.impl(m.ImageCreator._prepare_update_candidate_info_for_update, a, s, n)
